@@ -550,6 +550,9 @@ pub fn run_c10(p: &mut Prng, t: Tier, i: usize, sink: &mut Sink) {
     let nsess = c10_sessions(t);
     if i - 2 < nsess {
         let (id, other) = id_or_colliding_pair(p, &mut w, 6);
+        if p.chance(1, 3) {
+            w.exec(json!({"op":"place.policy","seed":p.next_u64()}));
+        }
         if setup_keys(p, &mut w, "s", "enc", &id, None) {
             let len = ((i - 2) % 255) + 1; // every length 1..=255 across a batch
             w.exec(set("s.msg", &msg_of_len(p, len)));
